@@ -49,6 +49,10 @@ type Peer struct {
 	NoFilters    bool  // do not answer getcfilters
 	NoBlocks     bool  // do not answer getdata(block)
 
+	// Delay, if >0, is the virtual time the peer takes to answer each
+	// request (requests are answered one after the other).
+	Delay time.Duration
+
 	// Log of received request commands, and counters.
 	Recv       []string
 	Sessions   int
@@ -251,6 +255,9 @@ func (p *Peer) handle(c net.Conn, msg wire.Message) {
 		p.Pending = append(p.Pending, msg)
 		p.mu.Unlock()
 		return
+	}
+	if p.Delay > 0 {
+		time.Sleep(p.Delay)
 	}
 	p.Answer(msg)
 }
